@@ -76,6 +76,12 @@ def run_case(case, res):
                                                      max_evaluations=rng.choice([20, 40, 80]), one_vs_others=cfg["one_vs_others"],
                                                      print_metrics=False, tolerance=-1.0)
     estimators = cl.get_density_estimation_results()[0]
+    if len(estimators) != k:
+        # a class is absent from the learning part of the split: the library identifies classes with estimator indices,
+        # so the stated assumption (labels 0..k-1, every class learned) does not hold for this case
+        res.note("class_missing_in_learning_split")
+        res.hash = digest([cfg, "class_missing"])
+        return
     res.check("one_estimator_per_class", len(estimators) == k, "C19_estimator_count", "%d estimators for %d classes" % (len(estimators), k), cfg)
 
     def densities(S):
